@@ -10,6 +10,7 @@
 import TealerModel.Lemmas.Worklist
 import TealerModel.Detect
 import TealerModel.Lemmas.Confluence
+import TealerModel.Lemmas.Fee
 namespace Tealer.C14
 
 variable {V : Type} [DecidableEq V]
@@ -92,5 +93,50 @@ theorem C14_forward_order_independent_generic {D : Type} [DecidableEq D] (A : An
     (hr2 : worklistRun (fwdF A g univ bc pc) (fwdDeps g) A.dom.null f2 (g.keys.map fun k => (k, A.dom.null)) wl2 = some r2) :
     ∀ k, le (getMap r1 k A.dom.null) (getMap r2 k A.dom.null) ∧ le (getMap r2 k A.dom.null) (getMap r1 k A.dom.null) :=
   Confluence.solveFwd_confluent A le M g univ bc pc hmirror hret hclosed wl1 wl2 h1 h2 c1 c2 f1 f2 r1 r2 hr1 hr2
+
+/-- the backward pass, generic statement (leaves keep the forward values, non-leaf blocks are solved by the worklist) -/
+theorem C14_backward_order_independent_generic {D : Type} [DecidableEq D] (A : Analysis D) (le : D → D → Prop)
+    (M : Confluence.MonoLaws A le) (g : Graph) (ctx1 : Nat → D)
+    (hmirror : ∀ b ∈ g.keys, g.isLeaf b = false → ∀ n ∈ g.nextG b, b ∈ g.prevG n)
+    (hret : ∀ b ∈ g.keys, g.isLeaf b = false → ∀ r, g.retPointOf b = some r → g.callsubOf r = some b)
+    (hclosed : ∀ b ∈ g.keys, g.isLeaf b = false → ∀ d ∈ bwdDeps g b, d ∈ g.keys ∧ g.isLeaf d = false)
+    (wl1 wl2 : List Nat) (h1 : ∀ b ∈ wl1, b ∈ g.keys ∧ g.isLeaf b = false) (h2 : ∀ b ∈ wl2, b ∈ g.keys ∧ g.isLeaf b = false)
+    (c1 : ∀ b ∈ g.keys, g.isLeaf b = false → b ∈ wl1) (c2 : ∀ b ∈ g.keys, g.isLeaf b = false → b ∈ wl2)
+    (f1 f2 : Nat) (r1 r2 : List (Nat × D))
+    (hr1 : worklistRun (bwdF A g ctx1) (bwdDeps g) A.dom.null f1
+      (g.keys.map fun k => (k, if g.isLeaf k then ctx1 k else A.dom.null)) wl1 = some r1)
+    (hr2 : worklistRun (bwdF A g ctx1) (bwdDeps g) A.dom.null f2
+      (g.keys.map fun k => (k, if g.isLeaf k then ctx1 k else A.dom.null)) wl2 = some r2) :
+    ∀ k, le (getMap r1 k A.dom.null) (getMap r2 k A.dom.null) ∧ le (getMap r2 k A.dom.null) (getMap r1 k A.dom.null) :=
+  Confluence.solveBwd_confluent A le M g ctx1 hmirror hret hclosed wl1 wl2 h1 h2 c1 c2 f1 f2 r1 r2 hr1 hr2
+
+/-- the fee chain is a domain with monotone operations: order = inclusion of the admitted fees (union and intersection are
+    exact on them) — so both order-independence theorems apply to the fee analysis: two runs admit the same fees -/
+theorem fee_mono : Confluence.MonoLaws feeAnalysis (fun a b => ∀ fee, Fee.gamma a fee → Fee.gamma b fee) := by
+  refine ⟨fun _ _ h => h, ?_, ?_, ?_⟩
+  · intro a a' b b' h1 h2 fee hf
+    have : feeAnalysis.dom.union = feeUnion := rfl
+    rw [this] at hf ⊢
+    rcases (Fee.union_exact a b fee).mp hf with h | h
+    · exact (Fee.union_exact a' b' fee).mpr (Or.inl (h1 fee h))
+    · exact (Fee.union_exact a' b' fee).mpr (Or.inr (h2 fee h))
+  · intro a a' b b' h1 h2 fee hf
+    have : feeAnalysis.dom.inter = feeInter := rfl
+    rw [this] at hf ⊢
+    obtain ⟨ha, hb⟩ := (Fee.inter_exact a b fee).mp hf
+    exact (Fee.inter_exact a' b' fee).mpr ⟨h1 fee ha, h2 fee hb⟩
+  · intro a fee hf
+    have hn : feeAnalysis.dom.null = feeNull := rfl
+    rw [hn] at hf
+    have h0 := (Fee.null_only_zero fee).mp hf
+    subst h0
+    unfold Fee.gamma
+    split <;> omega
+
+/-- the integer / kind sets and the fee chain satisfy the premises of the generic theorems -/
+theorem C14_domains_monotone :
+    Confluence.MonoLaws groupIndicesAnalysis subsetLe ∧ Confluence.MonoLaws txnTypeAnalysis subsetLe ∧
+    Confluence.MonoLaws feeAnalysis (fun a b => ∀ fee, Fee.gamma a fee → Fee.gamma b fee) :=
+  ⟨natSet_mono groupIndicesAnalysis rfl, natSet_mono txnTypeAnalysis rfl, fee_mono⟩
 
 end Tealer.C14
